@@ -578,24 +578,31 @@ theorem chanInstrs_chan {allLocal : Bool} {m : SlmMask} {k : Nat} {v : ChanView}
 
 /-! ### The phase rule of `_add_channel_samples` -/
 
+theorem phaseStep_off_off (on : Nat → Bool) (acc : List Nat) {k : Nat} (hk : on k = false) :
+    phaseStep on (acc, false) k = (acc ++ [k], false) := by
+  simp [phaseStep, mergePhase, hk]
+
+theorem phaseStep_on_off (on : Nat → Bool) (acc : List Nat) {k : Nat} (hk : on k = false) :
+    phaseStep on (acc, true) k = (acc, true) := by
+  simp [phaseStep, mergePhase, hk]
+
+theorem phaseStep_off_on (on : Nat → Bool) (acc : List Nat) {k : Nat} (hk : on k = true) :
+    phaseStep on (acc, false) k = ([k], true) := by
+  simp [phaseStep, mergePhase, hk]
+
 theorem entryPhase_all_off (on : Nat → Bool) : ∀ (ws : List Nat) (acc : List Nat),
-    (∀ k ∈ ws, on k = false) →
-    ws.foldl (fun acc k => (mergePhase acc.1 acc.2 (on k) k, acc.2 || on k)) (acc, false) = (acc ++ ws, false)
+    (∀ k ∈ ws, on k = false) → ws.foldl (phaseStep on) (acc, false) = (acc ++ ws, false)
   | [], acc, _ => by simp
   | k :: rest, acc, h => by
-    have hk := h k List.mem_cons_self
-    simp only [List.foldl_cons, hk, mergePhase, Bool.false_and, Bool.and_false, Bool.or_false]
-    rw [entryPhase_all_off on rest _ (fun k' hk' => h k' (List.mem_cons_of_mem _ hk'))]
+    rw [List.foldl_cons, phaseStep_off_off on acc (h k List.mem_cons_self),
+      entryPhase_all_off on rest _ (fun k' hk' => h k' (List.mem_cons_of_mem _ hk'))]
     simp
 
 theorem entryPhase_keep (on : Nat → Bool) : ∀ (ws : List Nat) (acc : List Nat),
-    (∀ k ∈ ws, on k = false) →
-    ws.foldl (fun acc k => (mergePhase acc.1 acc.2 (on k) k, acc.2 || on k)) (acc, true) = (acc, true)
+    (∀ k ∈ ws, on k = false) → ws.foldl (phaseStep on) (acc, true) = (acc, true)
   | [], acc, _ => by simp
   | k :: rest, acc, h => by
-    have hk := h k List.mem_cons_self
-    simp only [List.foldl_cons, hk, mergePhase, Bool.true_and, Bool.not_false, Bool.false_and,
-      Bool.or_false, Bool.not_true, if_true, List.append_nil]
+    rw [List.foldl_cons, phaseStep_on_off on acc (h k List.mem_cons_self)]
     exact entryPhase_keep on rest acc (fun k' hk' => h k' (List.mem_cons_of_mem _ hk'))
 
 /-- When exactly one of the channels written into an entry drives at that time, the entry's
@@ -604,9 +611,8 @@ theorem entryPhase_single (on : Nat → Bool) (pre post : List Nat) (k0 : Nat) (
     (hpre : ∀ k ∈ pre, on k = false) (hpost : ∀ k ∈ post, on k = false) :
     entryPhase on (pre ++ k0 :: post) = ([k0], true) := by
   unfold entryPhase
-  rw [List.foldl_append, entryPhase_all_off on pre [] hpre, List.foldl_cons]
-  simp only [hk0, mergePhase, Bool.not_false, Bool.and_self, if_true, Bool.false_and, Bool.false_or,
-    List.nil_append, Bool.not_true, Bool.and_false]
+  rw [List.foldl_append, entryPhase_all_off on pre [] hpre, List.foldl_cons,
+    phaseStep_off_on on _ hk0]
   exact entryPhase_keep on post [k0] hpost
 
 end Pulser
